@@ -7,7 +7,9 @@ PROP = "C13"
 PER_FILE = 40
 
 VALID_VALUES = ["7", "0", "1", "42", "4294967295", "65536", "007", "123456789", "00000000001", "0000000000000042", "04294967295"]
-UNUSABLE_VALUES = ["x", '"s"', "foo(1)", "x.y", "true", "1.5", "id", '"7"', "some_id + 1", "REF_ID"]
+UNUSABLE_VALUES = ["x", '"s"', "foo(1)", "x.y", "true", "1.5", "id", '"7"', "some_id + 1", "REF_ID",
+                   # expressions that merely begin with digits
+                   "40 + 2", "3.max(n)", "7 as u64", "2 * n", "10 - 1", "1 << 4", "5 /* five */ + 1", "12 .min(x)"]
 # safety assertions only: out-of-range / non-decimal literals, and values outside the "simple value" grammar (DESIGN 4.3)
 AMBIGUOUS_VALUES = ["4294967296", "0x10", "10u32", "1_0", "99999999999", "0b11", "1e3", "-1", "&n"]
 
